@@ -14,6 +14,13 @@ req = json.load(open(sys.argv[1])) if len(sys.argv) > 1 else {}
 slack = req.get('slack', 0)
 
 
+STALL_SECONDS, STALL_SLEEPS = 30.0, 200000
+
+
+class Stalled(Exception):
+    pass
+
+
 class Clock:
     def __init__(self, t):
         self.t = t
@@ -26,8 +33,16 @@ def simulate(limit_kbps, schedule, t0=5000.0):
     trace = [(clk.t, 0)]
     total = 0
 
+    waited = [0.0, 0]
+
     async def fake_sleep(x):
         clk.t += x
+        waited[0] += x
+        waited[1] += 1
+        # bounded wait: the smallest grant at the smallest limit needs a fraction of a second of refill
+        if waited[0] > STALL_SECONDS or waited[1] > STALL_SLEEPS:
+            raise Stalled(f'take_tokens() has not returned after {waited[1]} sleeps / {waited[0]:.1f} s of (virtual) waiting '
+                          f'(bucket {lim.bucket}, limit {lim.limit_bps} B/s)')
 
     async def go():
         nonlocal total, lim
@@ -43,9 +58,11 @@ def simulate(limit_kbps, schedule, t0=5000.0):
             else:
                 trace.append((clk.t, total))          # the instant just before the burst is a window start
                 for _ in range(v):
+                    waited[0], waited[1] = 0.0, 0
                     total += await lim.take_tokens()
                     trace.append((clk.t, total))
-    with patch('time.monotonic', side_effect=lambda: clk.t), patch('asyncio.sleep', side_effect=fake_sleep):
+    # plain functions, not mocks: a mock records every call (a waiter that spins would fill the memory)
+    with patch('time.monotonic', new=lambda: clk.t), patch('asyncio.sleep', new=fake_sleep):
         asyncio.run(go())
     return lim, trace
 
@@ -83,7 +100,10 @@ for kbps in (1, 2, 50, 10000):
     for sch in SCHEDULES:
         if sch[0][0] == 'limit' and kbps != 1:
             continue
-        lim, trace = simulate(kbps, sch)
+        try:
+            lim, trace = simulate(kbps, sch)
+        except Stalled as e:
+            verdict(True, f'limit {kbps} KiB/s: {e}', input={'limit_kbps': kbps, 'schedule': sch})
         w = worst_window(trace, L, slack)
         if w:
             verdict(True, f'limit {kbps} KiB/s: {w[0]:.0f} bytes more than L*T + L{"+" + str(slack) if slack else ""} were granted '
